@@ -266,6 +266,35 @@ func runC05(r *vf.Run) {
 		d.Index()
 		return d
 	}})
+	cases = append(cases, c5{id: "rows-vs-batches", crafted: true, ds: func(rng *rand.Rand) *gen.Dataset {
+		// (round 6) values whose row sets are laid out against the writers' batch geometry (1000 rows per temporary
+		// commit, 1000 values per transaction): value k occurs ONCE at row k (k = 1..40) and twice or more in the rows of
+		// batch number k; on one row in each of many batches; on the first and on the last row of batches; and only on
+		// rows whose id is a multiple of 1000 -- so that whatever a writer keys by batch number, row id or position within
+		// a batch meets a value for which two of those numbers coincide.
+		d := &gen.Dataset{ID: "rows-vs-batches"}
+		n := 42000
+		for i := 0; i < n; i++ {
+			d.Rows = append(d.Rows, oracle.Row{"u": fmt.Sprint(i)})
+		}
+		for k := 1; k <= 40; k++ {
+			v := fmt.Sprintf("k%d", k)
+			d.Rows[k]["single-then-batch"] = v
+			for j := 0; j < 2+k%3; j++ {
+				d.Rows[1000*k+5+7*j]["single-then-batch"] = v
+			}
+			d.Rows[1000*k]["first-of-batch"] = fmt.Sprintf("f%d", k%5)
+			d.Rows[1000*k+999]["last-of-batch"] = fmt.Sprintf("l%d", k%4)
+			d.Rows[1000*k+k]["one-per-batch"] = "same"
+			d.Rows[1000*k+(k*37)%1000]["one-per-batch-2"] = fmt.Sprintf("p%d", k%2)
+		}
+		for i := 0; i < n; i += 1000 {
+			d.Rows[i]["multiples-of-1000"] = fmt.Sprint(i / 1000 % 3)
+		}
+		d.Unique = "u"
+		d.Index()
+		return d
+	}})
 	cases = append(cases, c5{id: "concat", crafted: true, ds: func(rng *rand.Rand) *gen.Dataset {
 		return gen.MakeDataset(rng, "concat", gen.DatasetOpts{Rows: 400, Concat: true, WithUnique: true})
 	}})
